@@ -46,6 +46,7 @@ func callOpt(x any, method string, args ...bool) {
 func optBits(x any) uint16 { return stackage.VerifDump(x).Opt }
 
 type optSetup struct {
+	mutex   bool
 	kind    string
 	isCond  bool
 	methods []string          // tri-state methods
@@ -58,11 +59,15 @@ func (su *optSetup) fresh() any {
 	if su.isCond {
 		return stackage.Cond("kw", stackage.Eq, "val")
 	}
-	return newStackKind(su.kind).Push("a", stackage.List().Push("b", "c"), "d")
+	s := newStackKind(su.kind).Push("a", stackage.List().Push("b", "c"), "d")
+	if su.mutex {
+		s.SetMutex() // the option setters then run through lock()/unlock()
+	}
+	return s
 }
 
-func newOptSetup(kind string, isCond bool) (*optSetup, string) {
-	su := &optSetup{kind: kind, isCond: isCond, canon: map[string]string{}, bit: map[string]uint16{}}
+func newOptSetup(kind string, isCond bool, mutex ...bool) (*optSetup, string) {
+	su := &optSetup{kind: kind, isCond: isCond, canon: map[string]string{}, bit: map[string]uint16{}, mutex: len(mutex) > 0 && mutex[0]}
 	t := reflect.TypeOf(stackage.Stack{})
 	if isCond {
 		t = reflect.TypeOf(stackage.Condition{})
@@ -117,6 +122,9 @@ func c18OptMachine(c *Ctx, su *optSetup) *Machine[*optInst] {
 		}
 	}
 	name := "C18 option bits " + su.kind
+	if su.mutex {
+		name += " mutex"
+	}
 	opName := func(o op) string { return o.method + []string{"(true)", "(false)", "()"}[o.mode] }
 	direct := func(on map[string]bool) any { // differential: the same option set reached directly
 		x := su.fresh()
@@ -393,10 +401,15 @@ func refEncap(enc [][]string, v string) string {
 func c18SetMachine(c *Ctx, kind string, maxDepth int) *Machine[*setInst] {
 	ops := c18SetOps()
 	name := "C18 settings " + kind
+	withMutex := strings.HasSuffix(kind, " mutex")
+	kind = strings.TrimSuffix(kind, " mutex")
 	type depthKey struct{}
 	return &Machine[*setInst]{
 		Name: name,
 		New: func() *setInst {
+			if withMutex {
+				return &setInst{s: newStackKind(kind).SetMutex().Push("a", "b"), kind: kind}
+			}
 			return &setInst{s: newStackKind(kind).Push("a", "b"), kind: kind}
 		},
 		NumOps:  len(ops),
@@ -634,10 +647,15 @@ func init() {
 		} else {
 			om = append(om, c18OptMachine(c, su))
 		}
+		if sm2, e2 := newOptSetup("OR", false, true); e2 == "" {
+			om = append(om, c18OptMachine(c, sm2))
+		}
+		sm = append(sm, c18SetMachine(c, "NOT mutex", 0))
 		lm = append(lm, c18LvlMachine(c, "AND", tier == "thorough"), c18LvlMachine(c, "Condition", tier == "thorough"))
 		return
 	}
 	register(&Check{ID: "C18", Engine: "A", Run: func(c *Ctx) {
+		installLockModel()
 		om, sm, lm, errs := build(c, c.Tier)
 		for _, e := range errs {
 			c.Violation("option-setup", e, nil, 0)
